@@ -189,6 +189,16 @@ pub fn vx_parse_line_tokens(line: &str) -> (r: Tokens) ensures tsv(r@) == spec_p
 //@FN expand_alias
 //@FN expand_home
 //@FN expand_env
+
+// ---- do_expansion: the fixed order of the passes (ghost trace) ----
+pub ghost struct PassTrace { pub t: Seq<int> }
+#[verifier::external_body]
+pub fn vx_pass(sh: &mut Shell, tokens: &mut Tokens, id: u8, Tracked(tr): Tracked<&mut PassTrace>) ensures final(tr).t == old(tr).t.push(id as int) { unimplemented!() }
+#[verifier::external_body]
+pub fn tokens_to_line(tokens: &Tokens) -> (r: String) { unimplemented!() }
+#[verifier::external_body]
+pub fn is_arithmetic(line: &str) -> (r: bool) { unimplemented!() }
+//@FN do_expansion
 ''' + common.TAIL
 
 S = 'src/shell.rs'
@@ -341,7 +351,17 @@ expand_home.hints = {'loop-0-body-entry': 'assert("~"@.len() == 1 && "~"@[0] == 
 expand_env = text_pass('expand_env', 'T.0@ != "`"@ && T.0@ != "\'"@ && spec_env_in_token(T.1@)', 'C10+C13+C01', inner_dec='_token@.len()')
 expand_env.props = ('C10',)
 
-UNIT = Unit('U-EXP2', TEMPLATE, fns=[add_alias, is_alias, remove_alias, get_alias_content, get_env, expand_one_env, expand_alias, expand_home, expand_env],
+PASSES = ['expand_alias(sh, tokens)', 'expand_home(tokens)', 'expand_env(sh, tokens)', 'expand_brace(tokens)', 'expand_glob(tokens)',
+          'do_command_substitution(sh, tokens)', 'expand_brace_range(tokens)']
+do_expansion = Fn(S, 'do_expansion', add_params='Tracked(tr): Tracked<&mut PassTrace>',
+    pre_rewrites=TYRW + [Rw(p_ + ';', 'vx_pass(sh, tokens, %d, Tracked(tr));' % i, required=False, rule='R8',
+                            why='pass call recorded in a ghost trace (the pass itself is under contract in its own unit)') for i, p_ in enumerate(PASSES)]
+                      + [Rw('parsers::parser_line::tokens_to_line(', 'tokens_to_line(', required=False, rule='R0')],
+    ensures=[('C12+C11+C13.expansion.passes_run_in_the_fixed_order',
+              'final(tr).t == old(tr).t || final(tr).t == old(tr).t + seq![0int, 1int, 2int, 3int, 4int, 5int, 6int]')],
+)
+
+UNIT = Unit('U-EXP2', TEMPLATE, fns=[add_alias, is_alias, remove_alias, get_alias_content, get_env, expand_one_env, expand_alias, expand_home, expand_env, do_expansion],
             types=[TypeItem('src/types.rs', 'struct', 'LineInfo'), TypeItem('src/types.rs', 'struct', 'Job'),
                    TypeItem('src/shell.rs', 'struct', 'Shell', rewrites=[Rw('types::Job', 'Job', rule='R0')])],
             props=('C17', 'C10', 'C12', 'C13', 'C01', 'C05'))
